@@ -7,6 +7,7 @@ import (
 	"encoding/base64"
 	"encoding/hex"
 	"fmt"
+	"io"
 	"math/big"
 	"strings"
 	"time"
@@ -708,6 +709,20 @@ func c17ExportImport(r *fw.R, keyPrefix, what string, k *dns.DNSKEY, priv crypto
 			r.Fail(keyPrefix+"/reimport-variant", "%s: NewPrivateKey of the exported text (no final newline / v1.2): %v", what, err)
 		}
 	}
+	// the other entry point: ReadPrivateKey on a reader, with the text as exported, without its final newline (a file
+	// cut by an editor) and delivered one octet per Read
+	for vi, alt := range []string{text, strings.TrimSuffix(text, "\n")} {
+		for _, slow := range []bool{false, true} {
+			var rd io.Reader = strings.NewReader(alt)
+			if slow {
+				rd = iotest1{strings.NewReader(alt)}
+			}
+			p4, err := k.ReadPrivateKey(rd, "key.private")
+			if err != nil || p4 == nil || !canon.SameKey(p4, priv) {
+				r.Fail(keyPrefix+"/readprivatekey", "%s: ReadPrivateKey of the exported text (variant %d: 0 as exported, 1 no final newline; one octet per Read %v) = %T, %v — not the key that was exported", what, vi, slow, p4, err)
+			}
+		}
+	}
 	return
 }
 
@@ -1047,3 +1062,13 @@ func c17Abs64(x int64) int64 {
 }
 
 func c17T(u int64) string { return time.Unix(u, 0).UTC().Format("2006-01-02T15:04:05Z") }
+
+// iotest1 delivers one octet per Read.
+type iotest1 struct{ r io.Reader }
+
+func (o iotest1) Read(p []byte) (int, error) {
+	if len(p) == 0 {
+		return 0, nil
+	}
+	return o.r.Read(p[:1])
+}
